@@ -15,7 +15,7 @@ from . import common
 PROPERTY = 'C14'
 LEVEL = 'fault_enumeration'
 
-CLAUSES = ['select', 'where', 'order', 'group', 'aggarg', 'aggarg-expr', 'update-rhs', 'update-target', 'join-a', 'join-a-multi', 'join-b', 'select-upper', 'where-upper', 'unnest']
+CLAUSES = ['select', 'where', 'order', 'group', 'aggarg', 'aggarg-expr', 'update-rhs', 'update-target', 'join-a', 'join-a-multi', 'join-b', 'join-b-multi', 'select-upper', 'where-upper', 'unnest']
 
 
 def base_query():
@@ -94,6 +94,17 @@ def poison_case(clause, n, ks, rng):
             B[k - 1] = B[k - 1][:1]
         q['items'] = [{'kind': 'expr', 'expr': fld(0)}]
         q['join'] = {'type': rng.choice(['JOIN', 'LEFT JOIN']), 'table': 'b', 'pairs': [[fld(2), fld(1, sp, 'b'), '==', False]]}
+    elif clause == 'join-b-multi':
+        # a composite key on the join table over its first and third column; the short join record is cut to two fields (exactly one short of the
+        # rightmost key column), to one, or to none - by the position of the poisoned record
+        B = [['k%d' % (i % 2), 'x', 'B%d' % i] for i in range(n)]
+        for k in ks:
+            B[k - 1] = B[k - 1][:(2, 1, 2, 0)[k % 4]]
+        q['items'] = [{'kind': 'expr', 'expr': fld(0)}]
+        pairs = [[fld(2), fld(2, sp, 'b'), '==', False], [fld(0), fld(0, 'var', 'b'), '==', False]]
+        if n % 2:
+            pairs.reverse()
+        q['join'] = {'type': rng.choice(['JOIN', 'LEFT JOIN']), 'table': 'b', 'pairs': pairs}
     return common.case_json(q, {'A': A, 'B': B, 'a_names': None, 'b_names': None}, extra={'clause': clause, 'poison': ks})
 
 
@@ -767,7 +778,7 @@ def run_shard(spec, res):
 
 def summarize(tier, seed, m):
     return {
-        'rule': 'fault enumeration: one (and two: the first must be named) poisoned record at every position k of tables of 1..6 records x 14 clause placements (SELECT, WHERE, ORDER BY key, GROUP BY key, aggregate argument, aggregate over a failing expression, UPDATE right-hand side, UPDATE target beyond the record, JOIN key on A, composite JOIN key on A (non-adjacent columns), JOIN key on B, missing field under .upper() in SELECT / WHERE, UNNEST list) with poison kinds non-numeric cell under int() / numeric aggregate, missing field, missing join key; %d statically detectable mistakes x 6 spelling / header variants (parsing error, zero records written), %d of them in JS syntax through the JS port; an invalid byte sequence at every offset of a UTF-8 file x 7 sequences x 3 chunk sizes, header / column-list inconsistencies, defective quoted_rfc quoting (IO-handling error); the same bad bytes (bulk, one chunk, cut at the offset, byte by byte) and defective quoting through the JS port, by exception class and by the type its public classifier exception_to_error_info gives (also for a failing record and static mistakes over a CSV file); every subset of the anomalies {ragged, malformed quote, separator in simple output, BOM} (+ None from short records) on header-less full-scan queries with the exact iff and the cited record numbers; tables of 10-130 records with three record lengths first seen at records 1 / k / m (k and m of one, two and three digits) through a list table, a join table, a CSV file and the JS port: the warning cites record 1 and record k. The same anomaly subsets also through the JS reader (bulk and streamed in two chunks), engine and writer. the poisoned record at every position of 2-6 record tables delivered by front-ends whose own numbering differs from the record number (CSV with header line, comment lines and multi-line cells through query_csv and the command line; a dataframe with a non-default index; a sqlite table with rowid gaps) under six query shapes: query-execution error naming record k; colorized simple / whitespace output (2-17 columns, delimiters that occur inside the colour escape sequences) with the separator warning iff a FIELD holds the delimiter; distinct_nontrivial counts enumerated scenarios.' % (len(PARSING_QUERIES), len(JS_PARSING_QUERIES)),
+        'rule': 'fault enumeration: one (and two: the first must be named) poisoned record at every position k of tables of 1..6 records x 15 clause placements (SELECT, WHERE, ORDER BY key, GROUP BY key, aggregate argument, aggregate over a failing expression, UPDATE right-hand side, UPDATE target beyond the record, JOIN key on A, composite JOIN key on A (non-adjacent columns), JOIN key on B, composite JOIN key on B (the short record cut to two / one / no fields), missing field under .upper() in SELECT / WHERE, UNNEST list) with poison kinds non-numeric cell under int() / numeric aggregate, missing field, missing join key; %d statically detectable mistakes x 6 spelling / header variants (parsing error, zero records written), %d of them in JS syntax through the JS port; an invalid byte sequence at every offset of a UTF-8 file x 7 sequences x 3 chunk sizes, header / column-list inconsistencies, defective quoted_rfc quoting (IO-handling error); the same bad bytes (bulk, one chunk, cut at the offset, byte by byte) and defective quoting through the JS port, by exception class and by the type its public classifier exception_to_error_info gives (also for a failing record and static mistakes over a CSV file); every subset of the anomalies {ragged, malformed quote, separator in simple output, BOM} (+ None from short records) on header-less full-scan queries with the exact iff and the cited record numbers; tables of 10-130 records with three record lengths first seen at records 1 / k / m (k and m of one, two and three digits) through a list table, a join table, a CSV file and the JS port: the warning cites record 1 and record k. The same anomaly subsets also through the JS reader (bulk and streamed in two chunks), engine and writer. the poisoned record at every position of 2-6 record tables delivered by front-ends whose own numbering differs from the record number (CSV with header line, comment lines and multi-line cells through query_csv and the command line; a dataframe with a non-default index; a sqlite table with rowid gaps) under six query shapes: query-execution error naming record k; colorized simple / whitespace output (2-17 columns, delimiters that occur inside the colour escape sequences) with the separator warning iff a FIELD holds the delimiter; distinct_nontrivial counts enumerated scenarios.' % (len(PARSING_QUERIES), len(JS_PARSING_QUERIES)),
         'exhaustive': True,
         'required': ['colorized_output_runs', 'frontend_poison_runs:query_csv', 'frontend_poison_runs:cli', 'frontend_poison_runs:pandas', 'frontend_poison_runs:sqlite', 'header_separator_runs', 'poison_runs', 'parsing_runs', 'js_parsing_runs', 'js_warning_runs', 'js_io_runs', 'bad_byte_runs', 'inconsistent_input_runs', 'warning_runs', 'list_warning_runs', 'many_lengths_warning_runs', 'many_lengths_front:js-list', 'many_lengths_front:py-csv', 'field_name_checks', 'no_write_before_parsing_error_checks', 'js_cases',
                      'warning_iff:bom:present', 'warning_iff:fields:present', 'warning_iff:none:present', 'warning_iff:quote:present', 'warning_iff:sep:present'] + ['poison:' + c for c in CLAUSES],
